@@ -4,7 +4,7 @@ CONSTANTS
   MinWords = 0
   MaxWords = 2
   Must = {}
-  OptSet <- OptsCS
+  OptSet <- OptsLS
   PathAlpha <- PathAlphaDef
   PathLen = 0
   StratLen = 0
@@ -16,4 +16,3 @@ CONSTANTS
   RandCount = 0
   SelfLen = 3
 INVARIANTS SelfOK
-VIEW View
